@@ -128,6 +128,13 @@ Section Values.
         filter_decompress f (reconstruct nan r data a0) (reconstruct nan r data a1) a0 t
     end.
 
+  (* a run of DtypeConversion modules given as (compress, decompress) pairs: all compress conversions in
+     pipeline order / all decompress conversions in reverse pipeline order *)
+  Definition call (l : list ((K -> K) * (K -> K))) (v : K) : K := fold_left (fun v cd => fst cd v) l v.
+  Definition dall (l : list ((K -> K) * (K -> K))) (v : K) : K := fold_right (fun cd v => snd cd v) v l.
+  Definition convs (l : list ((K -> K) * (K -> K))) : list module := map (fun cd => Conv (fst cd) (snd cd)) l.
+  Definition sconvs (l : list ((K -> K) * (K -> K))) : list module_spec := map (fun cd => SConv (fst cd) (snd cd)) l.
+
   (* a whole recording: compress at steps 0 .. T-1 into zero-initialised storage *)
   Definition record_all (ms : list module) (size T : Z) (vals : Z -> K) : list K :=
     fold_left (fun data t => compress ms data (vals t) t) (zrange T) (repeat 0 (Z.to_nat size)).
@@ -138,8 +145,21 @@ Section Values.
     | None => None
     | Some (ms, size) => Some (reconstruct nan ms (record_all ms size T vals) t)
     end.
+  (* the same for several steps with one initialisation and one recording (used by the correspondence) *)
+  Definition run_many (legacy : bool) (nan : K) (specs : list module_spec) (T : Z) (vals : Z -> K) (ts : list Z) : option (list K) :=
+    match init_modules legacy specs T with
+    | None => None
+    | Some (ms, size) => let data := record_all ms size T vals in Some (map (reconstruct nan ms data) ts)
+    end.
+  (* the storage array after the recording *)
+  Definition record_data (legacy : bool) (specs : list module_spec) (T : Z) (vals : Z -> K) : option (list K) :=
+    match init_modules legacy specs T with
+    | None => None
+    | Some (ms, size) => Some (record_all ms size T vals)
+    end.
 End Values.
 Arguments Conv {K}. Arguments EveryK {K}. Arguments SConv {K}. Arguments SEveryK {K}.
+Arguments call {K}. Arguments dall {K}. Arguments convs {K}. Arguments sconvs {K}.
 
 (* ------------------------------------------------------------------ helpers of the executable instance *)
 (* rounding oracle as a finite table (values outside the table are left unchanged) *)
